@@ -76,7 +76,8 @@ pub fn analyze_output(out: &[u8], want_machine: bool) -> (Result<Vec<Op>, LexErr
 
 pub fn analyze(case: &GenCase, want: Want) -> Analysis {
     let log: SpyLog = Arc::new(Mutex::new(Vec::new()));
-    let cfg = TraceCfg { record_steps: want.steps, record_state: want.state, record_valid: want.valid, script: vec![], fuel: None, draw_fuel: None };
+    let (fuel, draw_fuel) = crate::case::budgets(case.min_opcodes, case.max_opcodes);
+    let cfg = TraceCfg { record_steps: want.steps, record_state: want.state, record_valid: want.valid, script: vec![], fuel: Some(fuel), draw_fuel: Some(draw_fuel) };
     let (result, trace) = case.run_traced(cfg, if want.spy { Some(&log) } else { None });
     let spy = std::mem::take(&mut *log.lock().unwrap());
     match &result {
